@@ -567,6 +567,11 @@ func tcpGRO(bufs [][]byte, offset int, pktI int, table *tcpGROTable, isV6 bool) 
 	if tcphLen < 20 || tcphLen > 60 {
 		return groResultNoop
 	}
+	if pkt[iphLen+12]&0x0f != 0 {
+		// reserved bits or the NS/AE flag are set; a coalesced segment
+		// carries the flag word of one member only
+		return groResultNoop
+	}
 	if len(pkt) < iphLen+tcphLen {
 		return groResultNoop
 	}
